@@ -154,9 +154,11 @@ BASE_LIB = {
             {"block": True, "declarations": [
                 {"decl": "double m2(double x, bool flag = true)"},
                 {"decl": "void m3(const std::string &name)"},
+                {"decl": "enum Shade { DARK, LIGHT = 4, PALE }"},          # an enumeration takes its options from the block too
             ]},
             {"decl": "void f2(double *x +intent(in)+rank(1), int n +implied(size(x)))"},
             {"decl": "namespace deep", "declarations": [
+                {"decl": "enum Level { LOW = 1, HIGH }"},
                 {"decl": "void work(int a)"},
                 {"decl": "int count(const std::string &s)"},
                 {"decl": "int sumValues(const int *values +dimension(..), int nvalues)"},
@@ -181,6 +183,9 @@ FUNC_OPTIONS = [("F_string_len_trim", False), ("F_force_wrapper", True), ("C_for
                 # selection of wrappers: stated on a container or on each of its members
                 # (the library has the wrapper OFF for these runs: switching it ON for a namespace equals switching it ON for each
                 #  member, because a container of a selected member is itself selected)
+                # name templates of enumerations and their members (consumed by the enumeration node)
+                ("C_enum_member_template", "{C_prefix}K_{enum_member_name}"), ("F_enum_member_template", "k_{enum_member_lower}"),
+                ("C_enum_template", "{C_prefix}E_{enum_name}"),
                 ("wrap_python", True), ("wrap_lua", True)]
 # F_this / literalinclude are also consumed by the class itself (derived type code), so they are not function-level
 FUNC_FORMATS = [("C_result", "rvc"), ("F_result", "rvf"), ("C_this", "me"), ("c_temp", "tmp_"),
